@@ -403,6 +403,9 @@ func cmdCheck(args []string) int {
 		if err := eng.resolveNoSched(); err != nil {
 			return fail(err.Error())
 		}
+		if err := eng.resolveReplace(); err != nil {
+			return fail(err.Error())
+		}
 		for _, k := range kf.Findings {
 			if k.Property == *prop && k.Entry == es.name && k.Status == "open" {
 				eng.known = append(eng.known, k)
